@@ -4,6 +4,7 @@ Shape H(L): L operations from the empty world over
     add_processor(fresh instance of type k, priority = unbounded symbolic integer | omitted)
     remove_processor(type k)
     process(dt)
+    add_processor(the instance currently registered for type k, priority = symbolic integer | omitted)
 followed by one final process(dt).  Explicit priorities are `sp.int()` values (SInt subclasses int), so
 every `x < key(a[mid])` inside desper/bisect.py is decided by z3 for all integers at once and both
 outcomes are explored when feasible.
@@ -161,7 +162,7 @@ def expect_events(sp, log, expected, when):
     del log[:]
 
 
-def h_procs(sp, L=3, n_types=4, mid_process=True, build=0):
+def h_procs(sp, L=3, n_types=4, mid_process=True, build=0, readd=True):
     types = TYPES[:n_types]
     w = World()
     m = Model()
@@ -170,7 +171,8 @@ def h_procs(sp, L=3, n_types=4, mid_process=True, build=0):
     for step in range(build + L):
         when = 'step %d' % step
         # the first `build` steps add one processor each of types[0], types[1], ... (any priorities)
-        op = 0 if step < build else sp.choose(3 if mid_process else 2, 'op%d' % step)
+        ops = [0, 1] + ([2] if mid_process else []) + ([3] if readd else [])
+        op = 0 if step < build else sp.pick(ops, 'op%d' % step)
         try:
             if op == 0:
                 T = types[step] if step < build else sp.pick(types, 'type%d' % step)
@@ -223,9 +225,41 @@ def h_procs(sp, L=3, n_types=4, mid_process=True, build=0):
                 else:
                     sp.cover('remove-absent')
                 expect_events(sp, log, expected, when)
-            else:
+            elif op == 2:
                 sp.cover('process-mid-history')
                 run_process(sp, w, m, log, when)
+            else:
+                # re-add the instance that is currently registered (the same object)
+                present = [t for t in types if t in m.reg]
+                if not present:
+                    sp.assume(False)
+                T = sp.pick(present, 'type%d' % step)
+                p = m.reg[T]
+                explicit = bool(sp.flag('explicit%d' % step))
+                if explicit:
+                    prio = sp.int('prio%d' % step)
+                    sp.note('add_processor(%r, priority=%s)   # the registered instance again' % (p, prio))
+                    w.add_processor(p, priority=prio)
+                    sp.cover('readd-explicit')
+                else:
+                    sp.note('add_processor(%r)   # the registered instance again' % (p,))
+                    w.add_processor(p)
+                    # the statement only says what an explicit priority does: whatever the instance reads
+                    # now is its priority, the order must agree with it
+                    prio = p.priority
+                    sp.cover('readd-omitted')
+                if len(m.reg) >= 2:
+                    sp.cover('readd-among-several')
+                # counts as added now; an omitted priority keeps whatever an earlier explicit add assigned
+                m.add(p, prio, explicit or id(p) in m.explicit)
+                # same object replaced by itself: on_remove + on_add (any order) or no callback at all
+                got = [(x[0], x[1]) for x in log]
+                both = (len(got) == 2 and all(g[1] is p for g in got)
+                        and sorted(g[0] for g in got) == ['on_add', 'on_remove'])
+                sp.check((not got) or (HANDLER[T] and both), 'lifecycle-callbacks',
+                         '%s: re-adding %r delivered %r, expected on_remove+on_add for it or nothing' % (
+                             when, p, got))
+                del log[:]
         except Exception as ex:     # noqa
             sp.fail('op-raises', '%s: operation raised %r' % (when, ex))
         try:
@@ -243,12 +277,14 @@ def h_procs(sp, L=3, n_types=4, mid_process=True, build=0):
 
 _TAGS = ['replace', 'remove', 'remove-subtype', 'explicit', 'default', 'explicit-vs-explicit', 'tie-of-defaults',
          'three-or-more', 'process-several', 'frame-after-replace-or-remove']
+_READD = ['readd-explicit', 'readd-omitted', 'readd-among-several']
 
 HARNESSES = {
-    'procs': dict(fn=h_procs, nontrivial=_TAGS, required=_TAGS),
+    'procs': dict(fn=h_procs, nontrivial=_TAGS + _READD, required=_TAGS + _READD),
+    'noreadd': dict(fn=h_procs, nontrivial=_TAGS, required=_TAGS),
     # same function started from a built world (first `build` steps are forced adds): longer lists
-    'built': dict(fn=h_procs, nontrivial=_TAGS + ['four'],
-                  required=[t for t in _TAGS if t != 'remove-subtype'] + ['four']),
+    'built': dict(fn=h_procs, nontrivial=_TAGS + _READD + ['four'],
+                  required=[t for t in _TAGS if t != 'remove-subtype'] + _READD + ['four']),
 }
 
 TIERS = {
@@ -259,7 +295,7 @@ TIERS = {
     'thorough': [
         ('procs', dict(L=4, n_types=4)),
         ('built', dict(L=2, n_types=4, build=3)),
-        ('procs', dict(L=5, n_types=3, mid_process=False)),
+        ('noreadd', dict(L=5, n_types=3, mid_process=False, readd=False)),
     ],
 }
 BUDGET_S = {'quick': 120, 'thorough': 1500}
@@ -276,14 +312,20 @@ RULE = ('one evaluation = one feasible path = one operation sequence together wi
         'comparison made by the real code; non-trivial = the path replaced or removed a processor, used an '
         'explicit symbolic priority, had a tie of defaults, three or more processors, or processed several')
 BOUNDS = {
-    'quick': 'all sequences of 3 operations + a final process(dt); 4 processor classes P0, P1(P0), P2, P3 with '
+    'quick': 'all sequences of 3 operations (add fresh / remove / process / re-add registered instance), and 1 operation after a built world of P0, P1, P2 with any priorities, + a final process(dt); 4 processor classes P0, P1(P0), P2, P3 with '
              'class defaults 0, 0, 5, -3 (P3 is not an event handler); priorities: any integer or omitted',
-    'thorough': 'all sequences of 4 operations over the 4 classes, and all sequences of 5 add/remove operations '
-                'over P0, P1(P0), P2; each followed by a final process(dt); priorities: any integer or omitted',
+    'thorough': 'all sequences of 4 operations over the 4 classes, 2 operations after the built world, and all '
+                'sequences of 5 add-fresh/remove operations over P0, P1(P0), P2; each followed by a final process(dt); priorities: any integer or omitted',
 }
 ASSUMPTIONS = [
-    'every add_processor call gets a fresh instance; the effective priority of an instance is the explicit '
-    'argument, else the class default, and is not reassigned afterwards',
+    'add_processor gets a fresh instance, or (re-add operation) the very instance currently registered for its '
+    'type; the effective priority of a fresh instance is the explicit argument, else the class default, and is '
+    'not reassigned by the harness',
+    're-adding the registered instance: afterwards it is the one processor of its type and counts as added now '
+    '(ties go after older processors of equal priority); an explicit priority must read back; with the priority '
+    'omitted the statement does not say whether an earlier explicit value persists, so whatever p.priority '
+    'reads is accepted and the order must agree with it; callbacks: on_remove + on_add for that object in any '
+    'order, or none at all, are both accepted',
     '"order they were added" refers to the add_processor call that registered the instance currently listed',
     'event dispatching stays enabled; processors do not add/remove processors or raise inside process()',
     'remove_processor(T) removes the exact-T instance, else the instance of the only registered subtype '
